@@ -149,9 +149,20 @@ pub fn lattice_u64(rng: &mut Rng) -> u64 {
     }
 }
 pub fn lattice_f64(rng: &mut Rng) -> f64 {
-    f64::from_bits(match rng.below(8) {
+    f64::from_bits(match rng.below(11) {
         0 => 0, 1 => 1u64 << 63, 2 => 1, 3 => 0x7ff0_0000_0000_0000, 4 => 0xfff0_0000_0000_0000,
-        5 => 0x7ff8_0000_0000_0001, 6 => 0x000f_ffff_ffff_ffff, _ => rng.next_u64(),
+        5 => 0x7ff8_0000_0000_0001, 6 => 0x000f_ffff_ffff_ffff,
+        // around what a 4-byte float can hold: mantissas of at most 23 (or 24) bits with exponents inside, on the edge of and
+        // far outside the single-precision range (a writer that narrows such a value must not change it)
+        7 | 8 => {
+            let sign = (rng.below(2) as u64) << 63;
+            let exp = *rng.pick(&[0u64, 1, 1023 - 300, 1023 - 150, 1023 - 149, 1023 - 127, 1023 - 126, 1023, 1023 + 127, 1023 + 128, 1023 + 200, 2046]);
+            let mant = match rng.below(4) { 0 => 0, 1 => (rng.next_u64() >> 41) << 29, 2 => ((rng.next_u64() >> 41) << 29) | (1 << 28), _ => 1u64 << 51 };
+            sign | (exp << 52) | mant
+        }
+        // exactly representable in single precision
+        9 => (f32::from_bits(rng.next_u64() as u32) as f64).to_bits(),
+        _ => rng.next_u64(),
     })
 }
 pub fn rand_utf8(rng: &mut Rng, chars: usize) -> String {
